@@ -75,7 +75,11 @@ pub struct TowerModel {
     /// Which properties' violations this model reports.
     pub props: Vec<&'static str>,
     pub probe: bool,
+    /// C06: apply the forgery matrix in the state reached (Some(full set of mutations?))
+    pub forgery: Option<bool>,
 }
+
+pub static FORGED_REQUESTS: std::sync::atomic::AtomicU64 = std::sync::atomic::AtomicU64::new(0);
 
 pub struct Executed {
     pub world: World,
@@ -113,12 +117,27 @@ impl TowerModel {
             }
             if i + 1 == n {
                 last_outcome = outcome_tag(&obs);
+                if let (Some(full), true) = (self.forgery, v.is_empty()) {
+                    let (fv, nreq) = crate::forgery::forgery_matrix(&world, &spec, full);
+                    FORGED_REQUESTS.fetch_add(nreq, std::sync::atomic::Ordering::Relaxed);
+                    if !fv.is_empty() {
+                        spec.lost = true;
+                    }
+                    v.extend(fv);
+                }
                 viols = v;
             } else if !v.is_empty() {
                 // An earlier step already failed: this history extends a pruned one (only possible
                 // for seeds). Report it as is.
                 viols = v;
                 break;
+            }
+        }
+        if n == 0 {
+            if let Some(full) = self.forgery {
+                let (fv, nreq) = crate::forgery::forgery_matrix(&world, &spec, full);
+                FORGED_REQUESTS.fetch_add(nreq, std::sync::atomic::Ordering::Relaxed);
+                viols.extend(fv);
             }
         }
         Executed { world, spec, viols, last_outcome }
@@ -253,7 +272,7 @@ impl Model for TowerModel {
         let violations: Vec<(String, String)> = ex
             .viols
             .iter()
-            .filter(|v| v.props.iter().any(|p| self.props.contains(p)))
+            .filter(|v| std::env::var("VERIF_ALL_PROPS").is_ok() || v.props.iter().any(|p| self.props.contains(p)))
             .map(|v| (v.sig.clone(), v.detail.clone()))
             .collect();
         let prune = !ex.viols.is_empty() || ex.world.dead;
